@@ -40,7 +40,7 @@ type Op struct {
 	T *tailVariant `json:"t,omitempty"` // crash: torn tail variant
 	// RLIMIT_FSIZE slack for an injected append failure: how many bytes of the batch still fit
 	S int `json:"s,omitempty"`
-	A bool `json:"a,omitempty"` // crash: an undurable watermark rename is undone as well
+	A int `json:"a,omitempty"` // crash: how far undurable watermark renames are undone (0: not at all)
 }
 
 func (o Op) String() string {
@@ -140,6 +140,7 @@ func parseLoad(s string) ([]string, error) {
 }
 
 type base struct {
+	Tag  string // which durable state of the operation (the model names them: pre created synced torn full …)
 	Disk diskDesc
 	Infl bool
 }
@@ -277,9 +278,13 @@ func (r *runner) record(point string) {
 func (r *runner) ask(line string) string {
 	ans, err := r.drv.Ask(line)
 	if err != nil {
-		r.res.Note("driver: %v", err)
+		r.res.Fatalf("%s step %d: driver died or did not answer %q: %v", r.name, len(r.log), line, err)
 		r.failed = true
 		return "driver-error"
+	}
+	if ans == "bad-op" {
+		r.res.Fatalf("%s step %d: driver answered bad-op to %q", r.name, len(r.log), line)
+		r.failed = true
 	}
 	return ans
 }
@@ -301,20 +306,42 @@ func (r *runner) basesOf(cop, ft string) []base {
 	var out []base
 	for _, p := range strings.Split(ans, " ; ") {
 		q := strings.Split(p, "|")
-		if len(q) != 2 {
-			r.res.Note("bad bases answer %q", ans)
+		if len(q) != 3 {
+			r.res.Fatalf("bad bases answer %q", ans)
 			r.failed = true
 			return nil
 		}
-		d, err := parseDisk(q[0])
+		d, err := parseDisk(q[1])
 		if err != nil {
-			r.res.Note("bad bases answer %q: %v", ans, err)
+			r.res.Fatalf("bad bases answer %q: %v", ans, err)
 			r.failed = true
 			return nil
 		}
-		out = append(out, base{Disk: d, Infl: q[1] == "1"})
+		out = append(out, base{Tag: q[0], Disk: d, Infl: q[2] == "1"})
 	}
 	return out
+}
+
+func hasTag(bs []base, tag string) bool {
+	for _, b := range bs {
+		if b.Tag == tag {
+			return true
+		}
+	}
+	return false
+}
+
+// tagIndex is the index of the n-th (0-based) base with that tag, -1 if there is none.
+func tagIndex(bs []base, tag string, n int) int {
+	for i, b := range bs {
+		if b.Tag == tag {
+			if n == 0 {
+				return i
+			}
+			n--
+		}
+	}
+	return -1
 }
 
 func maskStr(m uint64, n int) string {
@@ -460,22 +487,29 @@ func (r *runner) checkDir(dbPath, label string, at any, wantOK bool, want []stri
 
 // checkImage materialises base idx of (cop, ft) with the zombies of mask resurrected and the
 // given torn tail, and checks it.
-func (r *runner) checkImage(cop, ft string, idx int, b base, mask uint64, alt bool, tv tailVariant, allowed [][]string, inflight []call) {
+func nAlts(d diskDesc) int {
+	if d.Alt == "" || d.Alt == "-" {
+		return 0
+	}
+	return len(strings.Split(d.Alt, ","))
+}
+
+func (r *runner) checkImage(cop, ft string, idx int, b base, mask uint64, alt int, tv tailVariant, allowed [][]string, inflight []call) {
 	ms := maskStr(mask, len(b.Disk.Zombies))
-	if alt {
-		ms = "~" + ms
-		r.res.Hit("image:watermark-rename-undone")
+	if alt > 0 {
+		ms = strings.Repeat("~", alt) + ms
+		r.res.Hit(fmt.Sprintf("image:watermark-rename-undone-%d", alt))
 	}
 	ans := r.ask(fmt.Sprintf("img %s %s %d %s", cop, fault(ft), idx, ms))
 	parts := strings.SplitN(ans, " => ", 2)
 	if len(parts) != 2 {
-		r.res.Note("bad img answer %q", ans)
+		r.res.Fatalf("bad img answer %q", ans)
 		r.failed = true
 		return
 	}
 	img, err := parseDisk(parts[0])
 	if err != nil {
-		r.res.Note("bad img answer %q", ans)
+		r.res.Fatalf("bad img answer %q", ans)
 		r.failed = true
 		return
 	}
@@ -484,7 +518,7 @@ func (r *runner) checkImage(cop, ft string, idx int, b base, mask uint64, alt bo
 	if wantOK {
 		want, err = parseLoad(strings.TrimPrefix(parts[1], "ok "))
 		if err != nil {
-			r.res.Note("bad img answer %q", ans)
+			r.res.Fatalf("bad img answer %q", ans)
 			r.failed = true
 			return
 		}
@@ -623,43 +657,36 @@ func (r *runner) imagesOf(cop, ft string, bs []base, every bool) {
 				}
 			}
 			for _, tv := range tvs {
-				r.checkImage(cop, ft, idx, b, m, false, tv, allowed, inflight)
-				if b.Disk.Alt != "-" && b.Disk.Alt != "" {
-					r.checkImage(cop, ft, idx, b, m, true, tv, allowed, inflight)
+				for alt := 0; alt <= nAlts(b.Disk); alt++ {
+					r.checkImage(cop, ft, idx, b, m, alt, tv, allowed, inflight)
 				}
 			}
 		}
 	}
 }
 
-// baseOf maps a crash point of the real code to the durable state of the model's operation
-// (index into Sys.bases) that describes the same moment; -1: no single base.
-func baseOf(point string, o Op, nb int, nthRemoved, removedTotal int) int {
-	if o.K == "close" {
-		nb -= 2
-	}
-	cleanup := nb >= 12 && o.F != "wm"
+// baseOf maps a crash point of the real code to the durable state of the model's operation that
+// describes the same moment, by the names the model gives its states; -1: no single state.
+func baseOf(point string, o Op, bs []base, nthRemoved, removedTotal int) int {
 	switch point {
 	case "walstore:flush:after-append-sync":
 		if o.F == "append" {
-			return 5 // truncated back
+			return tagIndex(bs, "repaired", 0)
 		}
-		return 4
+		return tagIndex(bs, "full", 0)
 	case "walstore:watermark:tmp-synced":
-		if cleanup || o.F == "wmsync" {
-			return 5
-		}
+		return tagIndex(bs, "tmp", 0)
 	case "walstore:watermark:renamed":
-		if cleanup || o.F == "wmsync" {
-			return 7
-		}
-	case "walstore:cleanup:watermark-written", "walstore:cleanup:rotated":
-		if cleanup {
-			return 8
-		}
+		return tagIndex(bs, "ren'", 0)
+	case "walstore:cleanup:watermark-written":
+		return tagIndex(bs, "wm", 0)
+	case "walstore:cleanup:rotated":
+		return tagIndex(bs, "rot", 0)
 	case "walstore:cleanup:removed-one":
-		if cleanup && nthRemoved == removedTotal && !strings.HasPrefix(o.F, "unlink:") {
-			return 11
+		// the state after the last unlink that took place is the model's final one, also when a
+		// later unlink failed
+		if nthRemoved == removedTotal {
+			return tagIndex(bs, "gc", 0)
 		}
 	}
 	return -1
@@ -692,12 +719,12 @@ func (r *runner) hookImages(o Op, bs []base, preDisk diskDesc) {
 		}
 		desc, err := r.real.observe(s.Dir, false)
 		if err != nil {
-			r.res.Note("observe hook copy: %v", err)
+			r.res.Fatalf("observe hook copy: %v", err)
 			continue
 		}
 		wantOK, want := true, []string(nil)
 		haveWant := false
-		if bi := baseOf(s.Point, o, len(bs), nth, removedTotal); bi >= 0 && bi < len(bs) {
+		if bi := baseOf(s.Point, o, bs, nth, removedTotal); bi >= 0 && bi < len(bs) {
 			r.res.Compared(1)
 			md := bs[bi].Disk
 			if o.F == "wm" {
@@ -802,7 +829,7 @@ func (r *runner) snapshot() {
 	r.real.nimg++
 	dst := filepath.Join(r.real.root, fmt.Sprintf("snap%d", r.real.nimg))
 	if err := copyDir(walDirOf(r.real.db), walDirOf(dst)); err != nil {
-		r.res.Note("snapshot: %v", err)
+		r.res.Fatalf("snapshot: %v", err)
 		return
 	}
 	ans := r.ask("img idle none 0 -")
@@ -921,12 +948,10 @@ func (r *runner) newInjector(o Op) *injector {
 		in.f = "unlink"
 		// without a failure the model unlinks all candidates: they are the zombies of its last base
 		if bs := r.basesOf(o.K, ""); len(bs) > 0 {
-			last := bs[len(bs)-1]
-			if o.K == "close" && len(bs) > 2 {
-				last = bs[len(bs)-3]
-			}
-			for _, z := range last.Disk.Zombies {
-				in.cand = append(in.cand, z.Num)
+			if gi := tagIndex(bs, "gc", 0); gi >= 0 {
+				for _, z := range bs[gi].Disk.Zombies {
+					in.cand = append(in.cand, z.Num)
+				}
 			}
 		}
 	}
@@ -1066,7 +1091,7 @@ func (r *runner) withFault(o Op, f func() error) error {
 		_ = syscall.Getrlimit(syscall.RLIMIT_FSIZE, &old)
 		lim := syscall.Rlimit{Cur: uint64(size) + uint64(o.S), Max: old.Max}
 		if err := syscall.Setrlimit(syscall.RLIMIT_FSIZE, &lim); err != nil {
-			r.res.Note("setrlimit: %v", err)
+			r.res.Fatalf("setrlimit: %v", err)
 		}
 		err := f()
 		_ = syscall.Setrlimit(syscall.RLIMIT_FSIZE, &old)
@@ -1131,7 +1156,7 @@ func (r *runner) exec(o Op) {
 		}
 		wasClosed := r.closed
 		bs := r.basesOf(o.K, o.F)
-		if (o.K == "flush" && len(bs) >= 7) || len(bs) >= 9 {
+		if hasTag(bs, "tmp") {
 			r.res.Hit("flush:cleanup-runs")
 			r.sawGC = true
 			r.hot = 6
@@ -1167,7 +1192,7 @@ func (r *runner) exec(o Op) {
 		}
 		postDisk, oerr := r.real.observe(r.real.db, true)
 		if oerr != nil {
-			r.res.Note("observe: %v", oerr)
+			r.res.Fatalf("observe: %v", oerr)
 		}
 		// which of the two histories does the live store show now?
 		live, lerr := loadReal(r.real.st)
@@ -1292,7 +1317,7 @@ func (r *runner) crash(o Op) {
 			return guard(r.real.st.Close)
 		})
 		if _, err := r.real.observe(r.real.db, true); err != nil {
-			r.res.Note("observe: %v", err)
+			r.res.Fatalf("observe: %v", err)
 		}
 	}
 	idx := o.I % len(bs)
@@ -1303,14 +1328,14 @@ func (r *runner) crash(o Op) {
 		mask &= uint64(1)<<uint(nz) - 1
 	}
 	ms := maskStr(mask, nz)
-	if o.A {
-		ms = "~" + ms
+	if o.A > 0 {
+		ms = strings.Repeat("~", o.A%(nAlts(b.Disk)+1)) + ms
 	}
 	ans := r.ask(fmt.Sprintf("img %s %s %d %s", cop, fault(o.F), idx, ms))
 	parts := strings.SplitN(ans, " => ", 2)
 	img, err := parseDisk(parts[0])
 	if len(parts) != 2 || err != nil {
-		r.res.Note("bad img answer %q", ans)
+		r.res.Fatalf("bad img answer %q", ans)
 		r.failed = true
 		return
 	}
@@ -1331,15 +1356,15 @@ func (r *runner) crash(o Op) {
 		// unknown bytes (batch of a failed flush): crash at the first durable state instead
 		idx, b = 0, bs[0]
 		ms = maskStr(mask, len(b.Disk.Zombies))
-		if o.A {
-			ms = "~" + ms
+		if o.A > 0 {
+			ms = strings.Repeat("~", o.A%(nAlts(b.Disk)+1)) + ms
 		}
 		ans = r.ask(fmt.Sprintf("img %s %s %d %s", cop, fault(o.F), idx, ms))
 		parts = strings.SplitN(ans, " => ", 2)
 		img, _ = parseDisk(parts[0])
 		dir, err = r.real.materialise(img, tv, r.rng)
 		if err != nil {
-			r.res.Note("%s step %d: cannot materialise crash image %q: %v", r.name, len(r.log), ans, err)
+			r.res.Fatalf("%s step %d: cannot materialise crash image %q: %v", r.name, len(r.log), ans, err)
 			r.failed = true
 			return
 		}
@@ -1347,7 +1372,7 @@ func (r *runner) crash(o Op) {
 	r.res.Hit("crash:" + cop)
 	m := r.ask(fmt.Sprintf("crash %s %s %d %s", cop, fault(o.F), idx, ms))
 	if m != "ok" {
-		r.res.Note("crash rejected by the model: %s", m)
+		r.res.Fatalf("crash rejected by the model: %s", m)
 		r.failed = true
 		return
 	}
@@ -1370,7 +1395,7 @@ func (r *runner) crash(o Op) {
 		r.real.prev[f.Num] = true
 	}
 	if _, err := r.real.observe(r.real.db, false); err != nil {
-		r.res.Note("observe image: %v", err)
+		r.res.Fatalf("observe image: %v", err)
 	}
 }
 
@@ -1439,7 +1464,7 @@ func runJob(j job, f lib.Flags, res *lib.Result) {
 	rng := lib.NewRNG(j.seed)
 	r, err := newRunner(j.name, f, res, rng, j.level, j.serial)
 	if err != nil {
-		res.Note("runner %s: %v", j.name, err)
+		res.Fatalf("runner %s: %v", j.name, err)
 		return
 	}
 	defer r.done()
@@ -1561,7 +1586,7 @@ var (
 func parent(f lib.Flags, res *lib.Result) {
 	exe, err := os.Executable()
 	if err != nil {
-		res.Note("cannot find own executable: %v", err)
+		res.Fatalf("cannot find own executable: %v", err)
 		return
 	}
 	type child struct {
@@ -1575,26 +1600,26 @@ func parent(f lib.Flags, res *lib.Result) {
 			"--shard", fmt.Sprint(i), "--shards", fmt.Sprint(*shardsFlag))
 		cmd.Stderr = os.Stderr
 		if err := cmd.Start(); err != nil {
-			res.Note("cannot start shard %d: %v", i, err)
+			res.Fatalf("cannot start shard %d: %v", i, err)
 			continue
 		}
 		cs = append(cs, child{cmd, out})
 	}
 	for i, c := range cs {
 		if err := c.cmd.Wait(); err != nil {
-			res.Note("shard %d: %v", i, err)
+			res.Fatalf("shard %d: %v", i, err)
 			res.Mismatch(lib.Mismatch{Sig: "harness-worker-died", Input: i, Impl: err.Error()})
 		}
 		b, err := os.ReadFile(c.out)
 		_ = os.Remove(c.out)
 		if err != nil {
-			res.Note("shard %d: no result: %v", i, err)
+			res.Fatalf("shard %d: no result: %v", i, err)
 			res.Mismatch(lib.Mismatch{Sig: "harness-worker-no-result", Input: i})
 			continue
 		}
 		var r lib.Result
 		if err := json.Unmarshal(b, &r); err != nil {
-			res.Note("shard %d: %v", i, err)
+			res.Fatalf("shard %d: %v", i, err)
 			continue
 		}
 		res.Cases += r.Cases
@@ -1612,6 +1637,9 @@ func parent(f lib.Flags, res *lib.Result) {
 		for _, n := range r.Notes {
 			res.Note("%s", n)
 		}
+		for _, ft := range r.Fatal {
+			res.Fatalf("shard %d: %s", i, ft)
+		}
 		for _, s := range r.Samples {
 			res.Sample(8, s)
 		}
@@ -1622,7 +1650,7 @@ func parent(f lib.Flags, res *lib.Result) {
 func replayFile(f lib.Flags, res *lib.Result) {
 	b, err := os.ReadFile(f.Replay)
 	if err != nil {
-		res.Note("replay: %v", err)
+		res.Fatalf("replay: %v", err)
 		return
 	}
 	var doc struct {
@@ -1635,7 +1663,7 @@ func replayFile(f lib.Flags, res *lib.Result) {
 		} `json:"replay"`
 	}
 	if err := json.Unmarshal(b, &doc); err != nil {
-		res.Note("replay: %v", err)
+		res.Fatalf("replay: %v", err)
 		return
 	}
 	if doc.Replay.Codec != "" {
